@@ -100,13 +100,15 @@ pub const ELEM_CLASSES: &[NameClass] = &[
         names: &[
             "String", "string", "Option", "option", "Vec", "vec", "Serialize", "Deserialize", "serialize", "deserialize",
             "Box", "Result", "Some", "None", "str", "u8", "bool", "Default", "Clone", "Debug",
+            // the long s upper-cases to an ASCII `S`
+            "ſtring", "ſelf", "ſerialize",
         ],
     },
     NameClass {
         tag: "trap",
         names: &["text", "text_content", "foo_1", "type_attr", "r_type", "text_1", "a_attr", "foo_attr", "Text", "a_1", "a_type", "foo_2", "foo-2", "foo.1", "a_2", "text_content_1", "foo_3", "a_3"],
     },
-    NameClass { tag: "nonascii", names: &["é", "Ж", "жж", "λ", "名", "ñu", "Éa", "жЖ", "名前", "über", "ab名前", "é名前", "Идентификатор", "КАТАЛОГ", "ТОВАР", "AÑo", "ÉCOLE", "ÜBER", "col·lecció", "cafe\u{301}", "e\u{301}", "a\u{203F}b", "x\u{200D}y", "क\u{94D}ष", "núm·ref", "\u{20AC}uro"] },
+    NameClass { tag: "nonascii", names: &["é", "Ж", "жж", "λ", "名", "ñu", "Éa", "жЖ", "名前", "über", "ab名前", "é名前", "Идентификатор", "КАТАЛОГ", "ТОВАР", "AÑo", "ÉCOLE", "ÜBER", "col·lecció", "cafe\u{301}", "e\u{301}", "a\u{203F}b", "x\u{200D}y", "क\u{94D}ष", "núm·ref", "\u{20AC}uro", "ısı", "ışık", "ŉa", "ǰa", "ɐb", "straße", "ǆak", "İstanbul", "𐐷𐑊", "ΟΔΟΣ", "ﬁx", "𝒜b", "𠀀x", "éab", "éz"] },
     NameClass { tag: "digit", names: &["a1", "a2b", "x10", "A1", "b2", "a1b2", "h1", "H1", "S3Bucket", "H264Settings", "MP3Player", "H1N1", "item2Name", "base64Data", "ITEM2NAME", "x1Y"] },
     NameClass {
         tag: "long",
@@ -141,7 +143,7 @@ pub const ATTR_CLASSES: &[NameClass] = &[
         tag: "trap",
         names: &["text", "text_content", "foo_1", "type_attr", "r_type", "a_attr", "foo_attr", "text_attr", "a_1", "a_attr_1", "b_attr", "foo_2", "foo_attr_1", "foo_attr_2", "a_2", "foo_3", "foo_attr_3"],
     },
-    NameClass { tag: "nonascii", names: &["é", "Ж", "λ", "名", "ñu", "über", "ab名前", "é名前", "Идентификатор", "codi·intern", "nu\u{303}m", "k\u{2040}k", "i\u{200D}d", "\u{20AC}x"] },
+    NameClass { tag: "nonascii", names: &["é", "Ж", "λ", "名", "ñu", "über", "ab名前", "é名前", "Идентификатор", "codi·intern", "nu\u{303}m", "k\u{2040}k", "i\u{200D}d", "\u{20AC}x", "ı", "ŉa", "größe", "ǅ", "𐐏", "ς", "ﬀ", "éab", "éz"] },
     NameClass { tag: "digit", names: &["a1", "x10", "A1", "b2"] },
     NameClass {
         tag: "long",
